@@ -15,4 +15,5 @@ void vs_set_now(long long t);
 int vs_self();
 int vs_active();
 void vs_set_max_steps(long n);
+void vs_suspend(int on);								// 1: the calling code runs outside the scheduler until vs_suspend(0) (threads created meanwhile are registered, never run)
 }
